@@ -360,6 +360,13 @@ func cmdCheck(args []string) int {
 	for _, ax := range S.Axioms {
 		assumptions = append(assumptions, "axiom: "+ax.Src)
 	}
+	for _, a := range ps.Analyses {
+		if a == "depth" {
+			for _, r := range S.StructuralRecReasons {
+				assumptions = append(assumptions, "recursion declared structural (bounded by the depth of a finite data structure, not by a guard): "+r)
+			}
+		}
+	}
 	sort.Strings(assumptions)
 	if len(samples) == 0 {
 		samples = append(samples, "none discharged")
